@@ -103,6 +103,9 @@ pub mod k {
     pub const DROP_MASK_DIR: i128 = 68; // 0 both, 1 only client->server, 2 only server->client
     pub const FAIR_RUN: i128 = 69; // >0: at most this many consecutive random drops per direction
     pub const SERVER_EARLY: i128 = 71; // server application opens/writes its own streams before Connected (0.5-RTT data)
+    pub const HOSTILE_AT: i128 = 72; // us: one endpoint's connection 0.. injects hostile authenticated frames once
+    pub const HOSTILE_KIND: i128 = 73; // catalogue entry (see hostile_frames)
+    pub const HOSTILE_SIDE: i128 = 74; // which endpoint misbehaves (0 client, 1 server)
     pub const RECONNECT: i128 = 70; // open this many further client connections, one per drained connection (slot reuse)
 }
 
@@ -1341,6 +1344,7 @@ impl World {
         let mut keyupd = [false, false];
         let mut rwnd_done = false;
         let mut mtu_changed = false;
+        let mut hostile_done = false;
         let mut end_reason = 0;
         loop {
             self.steps += 1;
@@ -1369,7 +1373,7 @@ impl World {
                 }
                 upd(1_000_000);
             }
-            for key in [k::MIGRATE_AT, k::MIGRATE2_AT, k::KEYUPD_C, k::KEYUPD_S, k::CLOSE_AT, k::NEW_RWND_AT, k::LINK_MTU_AT] {
+            for key in [k::MIGRATE_AT, k::MIGRATE2_AT, k::KEYUPD_C, k::KEYUPD_S, k::CLOSE_AT, k::NEW_RWND_AT, k::LINK_MTU_AT, k::HOSTILE_AT] {
                 let v = self.p.get(key, 0);
                 if v > 0 && v as u64 > self.now {
                     upd(v as u64);
@@ -1466,6 +1470,22 @@ impl World {
                 self.link_mtu = self.p.get(k::LINK_MTU2, 1500) as usize;
                 self.trace.push(vec![13, self.now as i128, 4, self.link_mtu as i128]);
             }
+            let h_at = self.p.get(k::HOSTILE_AT, 0);
+            if h_at > 0 && !hostile_done && self.now as i128 >= h_at {
+                hostile_done = true;
+                let side = self.p.get(k::HOSTILE_SIDE, 0).clamp(0, 1) as usize;
+                let kind = self.p.get(k::HOSTILE_KIND, 1);
+                let max_uni = self.p.get(k::MAX_UNI, 100) as u64;
+                if let Some((&chk, _)) = self.eps[side].conns.iter().next() {
+                    let (space, bytes) = hostile_frames(kind, side, max_uni, &mut self.rng);
+                    let idx = self.eps[side].conns[&chk].conn_index as i128;
+                    let ok = self.eps[side].conns.get_mut(&chk).unwrap().conn.verif_inject_frames(space, bytes);
+                    self.trace.push(vec![13, self.now as i128, 8, side as i128, idx, kind, ok as i128]);
+                    if ok {
+                        self.drive_conn(side, chk);
+                    }
+                }
+            }
             self.attacker_inject();
             self.deliver_due();
             // timeouts + drive
@@ -1560,6 +1580,168 @@ fn quinn_proto_token_key(seed: u64) -> Arc<dyn quinn_proto::crypto::HandshakeTok
         *b = (seed >> (i % 8)) as u8 ^ (i as u8).wrapping_mul(13);
     }
     Arc::new(ring::hkdf::Salt::new(ring::hkdf::HKDF_SHA256, &[]).extract(&ikm))
+}
+
+fn put_var(b: &mut Vec<u8>, x: u64) {
+    if x < 1 << 6 {
+        b.push(x as u8);
+    } else if x < 1 << 14 {
+        b.extend_from_slice(&((x as u16) | 0x4000).to_be_bytes());
+    } else if x < 1 << 30 {
+        b.extend_from_slice(&((x as u32) | 0x8000_0000).to_be_bytes());
+    } else {
+        b.extend_from_slice(&(x | 0xC000_0000_0000_0000).to_be_bytes());
+    }
+}
+
+/// Catalogue of hostile-but-authenticated frame sequences (C03/C06). `side` is the misbehaving
+/// endpoint (0 client, 1 server); stream ids are chosen relative to it. Returns (space, bytes).
+/// The prescribed outcome of each kind is tabled in coq/Sys/MonC03.v.
+fn hostile_frames(kind: i128, side: usize, max_uni: u64, rng: &mut Rng) -> (u8, Vec<u8>) {
+    let me = side as u64; // initiator bit of streams I open
+    let peer = 1 - me;
+    let my_uni0 = 2 + me; // my first uni stream
+    let peer_uni0 = 2 + peer;
+    // a stream of mine the application never opens (index 5): cannot already be closed
+    let fresh = my_uni0 + 4 * 5;
+    let mut b = Vec::new();
+    let stream = |b: &mut Vec<u8>, id: u64, off: u64, len: usize, fin: bool| {
+        b.push(0x08 | 0x04 | 0x02 | fin as u8);
+        put_var(b, id);
+        put_var(b, off);
+        put_var(b, len as u64);
+        b.extend(std::iter::repeat(0xAB).take(len));
+    };
+    match kind {
+        1 => stream(&mut b, my_uni0 + 4 * (max_uni + 50), 0, 3, false),
+        2 => stream(&mut b, fresh, 1 << 40, 1, false),
+        3 => stream(&mut b, fresh, (1 << 62) - 2, 10, false),
+        4 => {
+            b.push(0x04);
+            put_var(&mut b, fresh);
+            put_var(&mut b, 7);
+            put_var(&mut b, 1 << 40);
+        }
+        5 => stream(&mut b, peer_uni0, 0, 3, false),
+        6 => {
+            b.push(0x11);
+            put_var(&mut b, my_uni0);
+            put_var(&mut b, 1 << 20);
+        }
+        7 => {
+            b.push(0x05);
+            put_var(&mut b, peer + 4 * 1000);
+            put_var(&mut b, 9);
+        }
+        8 => {
+            b.push(0x02);
+            put_var(&mut b, 1 << 30);
+            put_var(&mut b, 0);
+            put_var(&mut b, 0);
+            put_var(&mut b, 0);
+        }
+        9 => {
+            b.push(0x18);
+            put_var(&mut b, 3);
+            put_var(&mut b, 5);
+            b.push(8);
+            b.extend_from_slice(&[9; 8]);
+            b.extend_from_slice(&[7; 16]);
+        }
+        10 => {
+            b.push(0x18);
+            put_var(&mut b, 1000);
+            put_var(&mut b, 0);
+            b.push(8);
+            b.extend_from_slice(&[8; 8]);
+            b.extend_from_slice(&[6; 16]);
+        }
+        11 => {
+            b.push(0x19);
+            put_var(&mut b, 1000);
+        }
+        12 => b.push(0x1e),
+        13 => {
+            b.push(0x07);
+            put_var(&mut b, 4);
+            b.extend_from_slice(&[1, 2, 3, 4]);
+        }
+        14 => {
+            b.push(0x07);
+            put_var(&mut b, 0);
+        }
+        15 => {
+            b.push(0x06);
+            put_var(&mut b, 1 << 30);
+            put_var(&mut b, 1);
+            b.push(0);
+        }
+        16 => {
+            b.push(0x31);
+            put_var(&mut b, 300);
+            b.extend(std::iter::repeat(0x5A).take(300));
+        }
+        17 => {
+            put_var(&mut b, 0x3f);
+            b.extend_from_slice(&[0; 4]);
+        }
+        18 => {
+            b.push(0x12);
+            put_var(&mut b, (1 << 60) + 1);
+        }
+        19 => {
+            stream(&mut b, fresh, 0, 5, true);
+            stream(&mut b, fresh, 10, 1, false);
+        }
+        20 => {
+            for fs in [5u64, 9] {
+                b.push(0x04);
+                put_var(&mut b, fresh);
+                put_var(&mut b, 7);
+                put_var(&mut b, fs);
+            }
+        }
+        21 => {
+            b.push(0x1b);
+            b.extend_from_slice(&rng.next().to_be_bytes());
+        }
+        22 => b.extend_from_slice(&[0x01, 0x00, 0x00, 0x01]),
+        23 => {
+            let n = 4 + rng.below(40) as usize;
+            for _ in 0..n {
+                b.push(rng.below(256) as u8);
+            }
+        }
+        24 => {
+            b.push(0x08 | 0x02);
+            put_var(&mut b, my_uni0);
+            put_var(&mut b, 5000);
+            b.extend_from_slice(&[1, 2, 3]);
+        }
+        25 => {
+            b.push(0x10);
+            put_var(&mut b, 1);
+        }
+        26 => {
+            b.push(0x16);
+            put_var(&mut b, (1 << 60) + 1);
+        }
+        27 => {
+            b.push(0x02);
+            put_var(&mut b, 3);
+            put_var(&mut b, 0);
+            put_var(&mut b, 0);
+            put_var(&mut b, 9);
+        }
+        28 => {
+            b.push(0x1c);
+            put_var(&mut b, 1);
+            put_var(&mut b, 0);
+            put_var(&mut b, 0);
+        }
+        _ => b.push(0x01),
+    }
+    (2, b)
 }
 
 /// Cleartext classification of a datagram: bit0 long header present, bit1 contains an Initial,
